@@ -85,37 +85,48 @@ def run(ctx):
             ctx.ob('1h no-extra-condition-on-wake', 'K3-guard', fl.path, 'the signal depends on nothing but the outcome of flush_one', not bad, 'additional guards at %s' % bad)
     cw = ctx.body('db::Db::commit_worker')
     if cw:
-        sg = sites_on(cw, SIGNAL, '.DbInner.cleanup_worker_wait')
-        wt = sites_on(cw, WAIT, '.DbInner.commit_worker_wait')
-        lib.precedes(ctx, '1i idle-commit-worker-wakes-cleanup', cw, sg, wt, 'before the commit worker goes to sleep it signals the cleanup worker (enacted logs are waiting to be cleaned)')
+        # (the idle branch of the worker may live in a helper: the rules are applied in whichever body of the worker's family has
+        # the direct wait / signal, and at the worker's call of that helper)
+        fam = [b for b in lib.family(F, cw.path) if '{closure' not in b.path]
+        hosts = [(b, sites_on(b, WAIT, '.DbInner.commit_worker_wait', lift=False)) for b in fam]
+        hosts = [(b, w) for b, w in hosts if w]
+        if not hosts:
+            lib.precedes(ctx, '1i idle-commit-worker-wakes-cleanup', cw, sites_on(cw, SIGNAL, '.DbInner.cleanup_worker_wait'), [], 'before the commit worker goes to sleep it signals the cleanup worker (enacted logs are waiting to be cleaned)')
+        for hb, wt in hosts:
+            sg = sites_on(hb, SIGNAL, '.DbInner.cleanup_worker_wait')
+            if not sg and hb is not cw:
+                wt = [bi for bi, t in cw.calls() if bi in cw.normal_blocks() and hb.path in call_names(t)]
+                hb, sg = cw, sites_on(cw, SIGNAL, '.DbInner.cleanup_worker_wait')
+            lib.precedes(ctx, '1i idle-commit-worker-wakes-cleanup', hb, sg, wt, 'before the commit worker goes to sleep it signals the cleanup worker (enacted logs are waiting to be cleaned)')
         # ... and it does so after EVERY finished log file, not only when it is about to sleep: enact_logs throttles itself on the
         # number of enacted-but-uncleaned logs (cleanup_queue_wait), only the cleanup worker lowers that number and only this
         # signal wakes the cleanup worker. If the signal also depends on the hand-over queue being empty, a commit worker that
         # stays behind the flush worker for MAX_LOG_FILES + 1 files never wakes the cleaner and then waits for it for ever.
-        for s_ in sg:
+        sigs = [(b, x) for b in fam for x in sites_on(b, SIGNAL, '.DbInner.cleanup_worker_wait', lift=False)]
+        sigs += [(cw, bi) for b, _ in list(sigs) if b is not cw for bi, t in cw.calls() if bi in cw.normal_blocks() and b.path in call_names(t)]
+        for sb, s_ in sigs:
             extra = []
-            for (sw, yes, no) in cw.control_deps(s_):
-                t = cw.term(sw)
+            for (sw, yes, no) in sb.control_deps(s_):
+                t = sb.term(sw)
                 pl = op_place(t['a']) if t['k'] == 'switch' else None
                 if pl is None:
                     continue
-                sl = backward_slice(cw, [pl])
+                sl = backward_slice(sb, [pl])
                 reads_queue = [c for c in sl.calls if c in F.bodies and '.Log.read_queue' in set().union(*[lib.receiver_fields(F.body(c), t2, 0) for _, t2 in F.body(c).all_calls() if t2['a']] or [set()])]
                 if reads_queue or '.Log.read_queue' in sl.fields:
-                    extra.append('%s at %s' % ((reads_queue or ['Log.read_queue'])[0], cw.loc(sw)))
-            ctx.ob('1i2 cleanup-woken-after-every-finished-file', 'K3-guard', cw.path,
+                    extra.append('%s at %s' % ((reads_queue or ['Log.read_queue'])[0], sb.loc(sw)))
+            ctx.ob('1i2 cleanup-woken-after-every-finished-file', 'K3-guard', sb.path,
                    'whether the cleanup worker is signalled does not depend on the hand-over queue (it is signalled after every finished log file, also while more files are waiting to be enacted)',
-                   not extra, 'the signal is also guarded by %s' % extra, cw.loc(s_))
-    if cw:
+                   not extra, 'the signal is also guarded by %s' % extra, sb.loc(s_))
         # enact_logs reports "no more work" at the end of every log FILE, while the wake-up flag is a single boolean:
         # several rotations can coalesce into one signal, so the worker must look at the hand-over queue before it sleeps
-        wt = sites_on(cw, WAIT, '.DbInner.commit_worker_wait')
-        for w2 in wt:
-            calls, fields, binops = lib.guard_influences(cw, w2)
-            ok = any(c in F.bodies and '.Log.read_queue' in set().union(*[lib.receiver_fields(F.body(c), t2, 0) for _, t2 in F.body(c).all_calls() if t2['a']] or [set()]) for c in calls)
-            ctx.ob('1u commit-worker-sleeps-only-if-no-file-queued', 'K3-guard', cw.path,
-                   'the commit worker waits for a signal only depending on a look at Log.read_queue (signals coalesce: one flag, possibly several rotated files)', ok,
-                   'the wait does not depend on the state of the hand-over queue', cw.loc(w2))
+        for hb, wt in hosts:
+            for w2 in wt:
+                calls, fields, binops = lib.guard_influences(hb, w2)
+                ok = any(c in F.bodies and '.Log.read_queue' in set().union(*[lib.receiver_fields(F.body(c), t2, 0) for _, t2 in F.body(c).all_calls() if t2['a']] or [set()]) for c in calls)
+                ctx.ob('1u commit-worker-sleeps-only-if-no-file-queued', 'K3-guard', hb.path,
+                       'the commit worker waits for a signal only depending on a look at Log.read_queue (signals coalesce: one flag, possibly several rotated files)', ok,
+                       'the wait does not depend on the state of the hand-over queue', hb.loc(w2))
     cl = ctx.body('db::DbInner::clean_logs')
     if cl:
         sg = sites_on(cl, SIGNAL, '.DbInner.cleanup_queue_wait')
